@@ -39,6 +39,7 @@ pub fn generator(prop: &str) -> Option<Gen> {
         "C12" => Some(gen::gen_c12),
         "C03" => Some(gen::gen_c03),
         "C09" => Some(gen::gen_c09),
+        "C10" => Some(gen::gen_c10),
         _ => None,
     }
 }
